@@ -82,12 +82,9 @@ def genCfg : SqlCfg :=
     insertInTxn := Gen.StoreWrite.sqlInsertInTxn, changelogInTxn := Gen.StoreWrite.sqlChangelogInTxn,
     rollbackDeferred := Gen.StoreWrite.sqlRollbackDeferred }
 
-/-- the condition comparison the source makes today (see `Gen.StoreWrite.memCondCompare` / `sqlCondCompare`):
-    the raw comparison, or — once both sides go through `NewRelationshipCondition` — the normalised one -/
-def memCeq : TupleRec → TupleRec → Bool :=
-  if (Gen.StoreWrite.memCondCompare.splitOn "NewRelationshipCondition").length > 2 then semCondEq else condEq
-def sqlCeq : TupleRec → TupleRec → Bool :=
-  if (Gen.StoreWrite.sqlCondCompare.splitOn "NewRelationshipCondition").length > 1 then semCondEq else condEq
+/-- the condition comparison the source makes today (`Gen.StoreWrite.memCondCompare` / `sqlCondCompare`) -/
+def memCeq : TupleRec → TupleRec → Bool := ceqOfSource Gen.StoreWrite.memCondCompare memCompareNormalisedText
+def sqlCeq : TupleRec → TupleRec → Bool := ceqOfSource Gen.StoreWrite.sqlCondCompare sqlCompareNormalisedText
 
 /-- model state of one session: the memory store (raw records) or the SQL database -/
 inductive MState where
